@@ -291,6 +291,7 @@ class Interp(object):
         return res
 
     cur_func = None
+    live_list_iteration = False        # iterate heap lists by index over the live object (removal inside the body skips elements)
     same_seq_same_length = False       # two complete loops over one abstract sequence see the same number of elements (0 / 1 / more)
 
     def const_default(self, expr, mod):
@@ -865,7 +866,10 @@ class Interp(object):
                         res.append((s2, k2, it2))
                         continue
                     kind, seq = self.iter_values(s2, it2, node)
-                    if kind == "concrete":
+                    if kind == "concrete" and self.live_list_iteration and isinstance(it2, Ref) and s2.obj(it2).kind == "list" \
+                            and s2.obj(it2).items is not None:
+                        res.extend(self.loop_live_list(s2, node, it2))
+                    elif kind == "concrete":
                         res.extend(self.loop_concrete(s2, node, seq))
                     else:
                         abstract.append((s2, seq))
@@ -954,6 +958,45 @@ class Interp(object):
                             res.append((s2, k2, v2))
             states = self.dedupe(nxt)
         for s in states:
+            if node.orelse:
+                res.extend(self.exec_block(s, node.orelse))
+            else:
+                res.append((s, "next", None))
+        res.extend((s, "next", None) for s in broke)
+        return res
+
+    def loop_live_list(self, st, node, ref, limit=200):
+        """for x in <a list object>: Python's list iterator reads the LIVE list by index, so removing elements inside the
+        body skips elements and appending extends the loop.  Each state carries its own copy of the list."""
+        res = []
+        broke = []
+        states = [(st, 0)]
+        finished = []
+        steps = 0
+        while states:
+            steps += 1
+            if steps > limit:
+                raise Unsupported("loop over a list that keeps growing at %s" % self.loc(node))
+            nxt = []
+            for (s, i) in states:
+                o = s.heap.get(ref.oid)
+                items = o.items if o is not None else None
+                if items is None or i >= len(items):
+                    finished.append(s)
+                    continue
+                for (s1, k1, v1) in self.assign(s, node.target, items[i]):
+                    if k1 != "next":
+                        res.append((s1, k1, v1))
+                        continue
+                    for (s2, k2, v2) in self.exec_block(s1, node.body):
+                        if k2 in ("next", "continue"):
+                            nxt.append((s2, i + 1))
+                        elif k2 == "break":
+                            broke.append(s2)
+                        else:
+                            res.append((s2, k2, v2))
+            states = nxt
+        for s in self.dedupe(finished):
             if node.orelse:
                 res.extend(self.exec_block(s, node.orelse))
             else:
